@@ -110,7 +110,7 @@ m = {
     }],
     "checks": checks,
     "not_applicable": na,
-    "notes": "All checks rebuild the harness against /repo's working tree (cargo path dependency) before running. Exit 2 = inconclusive/harness error. Known findings: /verif/known_findings.json.",
+    "notes": "All checks rebuild the harness against /repo's working tree (cargo path dependency) before running. Exit 2 = inconclusive/harness error. Known findings: /verif/known_findings.json. Every check runs the harness built against two cargo-feature configurations of the crates (default: alloc + arrayvec + std + all units; alt: no std, compact, scpi-contrib/unproven; side evidence <id>.alt.json); C01 additionally in a build with debug assertions and overflow checks (<id>.checked.json); C03, C07, C08, C12, C19, C20 additionally in a third configuration without alloc and without unit features (<id>.min.json).",
 }
 json.dump(m, open(os.path.join(ROOT, "MANIFEST.json"), "w"), indent=1)
 print("MANIFEST.json:", len(checks), "checks,", len(na), "not_applicable")
